@@ -1226,12 +1226,12 @@ def check_C16(tier, seed):
             canon = "".join(map(chr, c["canon"]))
             text = "".join(map(chr, c["x"]))
             lists = "".join(map(chr, c["lists"]))
-            if c["kind"] == "alias" and lists != canon:
+            if c["kind"] in ("alias", "alias2") and lists != canon:
                 continue          # (optional LET dropped / remark marker changed: listing differs by design)
             var.setdefault(canon, {})[c["kind"]] = text
     sess = []
     for s_ in base:
-        for kind in ("lower", "mixed", "squeeze", "alias", "all"):
+        for kind in ("lower", "mixed", "squeeze", "alias", "alias2", "all"):
             cmds = []
             changed = 0
             for c in s_["cmds"]:
@@ -1258,9 +1258,9 @@ def check_C16(tier, seed):
         os.environ.pop("VERIF_LEX_CASECHECK", None)
     return finish("C16", tier, seed, "model_checking", [st1, st14, st2, st3, st4], t0,
                   rule="the canonical lines of sampled programs (bounded grammar, RENUM forms, seeded random programs) are "
-                       "read by the model scanner (BasicLex); MC_C16 derives five variants per line (lower case, mixed case, "
-                       "optional blanks removed wherever the model still sees the same words, aliases ? ' GO TO GO SUB =< => "
-                       "< > and LET dropped, all combined) and checks SpellingSound on the model; each variant is fed to the "
+                       "read by the model scanner (BasicLex); MC_C16 derives six variants per line (lower case, mixed case, "
+                       "optional blanks removed wherever the model still sees the same words, aliases ? ' GO TO GO SUB =< = > "
+                       "< > and LET dropped, the other comparison spellings = < => > <, all combined) and checks SpellingSound on the model; each variant is fed to the "
                        "real lexer / lister / parser (lists as the model says, parses like the canonical text); every session "
                        "is then re-typed in each spelling and trace-validated against the same AST-level specification (runs "
                        "and lists identically); finally every string of the C05 enumeration (reduced alphabet with both cases of the "
